@@ -184,6 +184,12 @@ impl<T: Send> BoundedSyncSender<T> {
 
   pub fn send_batch(&self, items: Vec<T>) -> Result<usize, SendBatchError<T>> {
     let total = items.len();
+    if total > 0 && self.closed.load(Ordering::Relaxed) {
+      return Err(SendBatchError {
+        sent: 0,
+        unsent: items,
+      });
+    }
     let mut iter = items.into_iter();
     let mut sent = 0;
     let mut is_registered = false;
